@@ -11,13 +11,14 @@ EXTENDS H3Frame, Json, TLC, SequencesExt, FiniteSetsExt
 CONSTANTS M, K,    \* M: control frames per sequence (part A); K: streams per scenario (part B)
           MC, Pairs \* part C: frames per sequence after SETTINGS; whether every pair of cut points is used in addition to every single one
 
-Letters == {"SET", "SETV", "GA4", "GA0", "GA1", "CP", "MP", "D", "H", "PP", "H2", "U", "BADCP", "LONGGA"}
+Letters == {"SET", "SETV", "GA4", "GA0", "GA1", "CP", "MP", "D", "H", "PP", "H2", "H2P", "U", "BADCP", "LONGGA"}
 Bytes(x) ==
     CASE x = "SET" -> <<4, 0>>            [] x = "SETV" -> <<4, 2, 8, 1>>
       [] x = "GA4" -> <<7, 1, 4>>         [] x = "GA0" -> <<7, 1, 0>>       [] x = "GA1" -> <<7, 1, 1>>
       [] x = "CP" -> <<3, 1, 0>>          [] x = "MP" -> <<13, 1, 4>>
       [] x = "D" -> <<0, 1, 97>>          [] x = "H" -> <<1, 0>>            [] x = "PP" -> <<5, 1, 0>>
       [] x = "H2" -> <<6, 0>>             [] x = "U" -> <<33, 1, 7>>
+      [] x = "H2P" -> <<8, 2, 1, 2>>      \* an HTTP/2-reserved type (WINDOW_UPDATE) with a payload
       [] x = "BADCP" -> <<3, 0>>          [] x = "LONGGA" -> <<7, 2, 4, 8>>
 
 D(bs) == [op |-> "deliver", bytes |-> bs]
